@@ -31,7 +31,7 @@ TIE = {
            'transpile_container_tie, _cn_handler = C02.cnHandler for every type / text / children, _simple_operator_handler. '
            'Not tied: that each _x_handler returns its closure; _ci_handler and __init__ (leaves / the generated table).',
     'C03': 'Tied (Tie/UnitDefs*.lean): Parser._make_pint_unit_definition = the canonical tree whose pint value is '
-           'Units.elemMeaning / defMeaning, offset test connective by connective (makeDef_tie, elemExpr_den, makeDefStr_tie for '
+           'Units.elemMeaning / defMeaning, offset test `float(offset) != 0` with its short circuit, float() as a raising leaf = Units.offsetRejected (offset_cond, makeDef_tie, elemExpr_den, makeDefStr_tie for '
            'the actual string); Parser._add_units: set-up = Units.addBases + queue (addUnitsSetup_tie), loop body = one step of '
            'Units.loop incl. re-queue, counter, ValueError on cycles (addUnitsBody_tie, loop_cons, addUnits_tie). Not tied: '
            'that pint parses the rendered string back into the tree.',
